@@ -11,7 +11,7 @@ SPEC = {
         'C38_secret_implies_unlock_before_partial', 'C38_guards_satisfiable',
     ],
     'allowed_axioms': [],
-    'shard': 22,
+    'shard': 40,
     'check_preamble': 'Require Import C33.C38.Model C33.C38.Spec.\n',
     'rule': 'histories on a real wallet.Wallet (memory DB behind a wrapper that can hold one goroutine at its n-th seed-record read / '
             'password-hash read / batch write; mocked blockchain, store and mempool topics). Requests: SaveSeed, ProcWalletUnLock (right / other / '
@@ -24,10 +24,12 @@ SPEC = {
             'started and seen to wait; no status observer while a SetPasswd is held: every spec failure is a violation); gate-window (status observers '
             'inside SetPasswd holds: may hit known finding 1); gate-window-witness (the deterministic reproduction of finding 1: wrong old password, '
             'fresh process, held at the password-hash read); spin (requests run under a goroutine that reads IsWalletLocked in a loop; a test that tries '
-            'to see the transient state without any hold: only reads that began and ended during the call count); dict (the password table). '
+            'to see the transient state without any hold: only reads that began and ended during the call count); lost-lock-hammer (a test, 2 s quick / 15 s '
+            'thorough: one goroutine loops ProcWalletSetPasswd with a wrong old password on an unlocked wallet, the other calls ProcWalletLock and then '
+            'CheckWalletStatus; a status "unlocked" after the lock is known finding 2); dict (the password table). '
             'non-trivial: seq = some request returned a stored secret; timed = an observation after an expired timeout; gate-guarded = a mutex-taking '
             'request was seen waiting; gate-window / witness = a status observer ran while a SetPasswd was held; spin = the observer saw "unlocked" '
-            'during a SetPasswd on a locked wallet. distinct = distinct Gallina case terms',
+            'during a SetPasswd on a locked wallet; hammer = the lock was undone at least once. distinct = distinct Gallina case terms',
     'trusted_base': [
         'the model is a hand-written LTS of wallet.go / wallet_proc.go at the granularity: one mutex operation, one atomic load or CAS of '
         'isWalletLocked, one DB read, one batch write per step; Go atomics are sequentially consistent, sync.Mutex is a lock; time.AfterFunc / '
@@ -40,7 +42,8 @@ SPEC = {
         'a valid signature of the stored key and reports RSecret',
         'correspondence for interleavings is checked where the harness can force the schedule (holds at DB operations, one waiting request) and, '
         'for the spinning observer, as "every value seen during a call is a value the model can show during that call"; free-running races between '
-        'two adjacent atomic instructions (the load and the CAS in ProcWalletSetPasswd) cannot be forced from outside and are covered by the model only',
+        'two adjacent atomic instructions (the load and the CAS in ProcWalletSetPasswd) cannot be forced from outside; for them the harness hammers the real '
+        'wallet and the check confirms that the model can show the observed outcome (C38_lost_lock_witness schedule)',
         'hook file /repo/common/db/creator_verif.go (add-only, build tag verif, shared with C37): lets wallet.New run on the holding memory DB',
         'Coq kernel + vm_compute (refutation witnesses, Examples, case evaluation)',
     ],
@@ -48,7 +51,7 @@ SPEC = {
         'C38_observed_unlocked_implies_unlock_before_partial holds for schedules in which no IsWalletLocked / GetWalletStatus read falls between the '
         'CAS and the restore of a ProcWalletSetPasswd that started on a locked wallet (no_obs_in_window) and no ProcWalletLock / timer CAS falls '
         'between the load and the CAS of a ProcWalletSetPasswd (no_split_race); without the first the statement is false (known finding 1, reproduced '
-        'on the real wallet), without the second it is false in the model (C38_lost_lock_witness; a two-instruction race not reproducible from outside)',
+        'on the real wallet), without the second it is false in the model (C38_lost_lock_witness) and on the real wallet (known finding 2, reproduced by the hammer)',
         'the timed spec oracle of the correspondence check reads Timeout = 0 as "no timeout" and negative timeouts as "expires at once"; a negative '
         'Timeout below -9223372036 overflows to a positive duration in the code (not generated)',
     ],
@@ -56,8 +59,8 @@ SPEC = {
         'level_text': 'partial: for every schedule of atomic steps the mutex is exclusive, every request that returns a stored key, the seed or a '
                       'signature has tested the flag under the mutex outside every SetPasswd window, and observers see "unlocked" only after a verified '
                       'unlock with no lock / timeout / restart since, PROVIDED no lock-free observer reads inside a SetPasswd window (refuted otherwise: '
-                      'known finding 1, wrong old password included) and no lock / timer CAS splits SetPasswd\'s load and CAS (refuted otherwise in the '
-                      'model: the lock is undone)',
+                      'known finding 1, wrong old password included) and no lock / timer CAS splits SetPasswd\'s load and CAS (refuted otherwise: the '
+                      'lock is undone, known finding 2, reproduced on the real wallet)',
         'level_note': 'hand-written step-level LTS of the wallet lock tied to the Go code by sequential, timed, held-at-DB-operation and '
                       'spinning-observer histories on a real wallet.Wallet; cryptography, DB and queue abstracted; no ticket plugin',
         'technique': 'Coq proof (invariant by induction over arbitrary schedules of a step-level LTS, refutations by computed witness schedules) + '
